@@ -34,3 +34,17 @@ Proof. exact status_is_function_of_items. Qed.
 Theorem c15_immediate_write_refuted :
   exists c prog, stdout_lines isort (with_level c 1) prog = [""] /\ stdout_lines isort (with_level c 0) prog = ["Starting audit"].
 Proof. exact immediate_write_refuted. Qed.
+
+(* the level filter, the colouring decision and the colour numbers are the statements of the current outputbuffer.py (T1c translation, gen/Tables.v) *)
+From VGen Require Import Tables.
+From VProofs Require Import TieC15.
+Theorem c15_tie_get_level : forall l, src_get_level (olevel_text l) = match lvl_num l with Some k => Z.of_nat k | None => src_maxsize end.
+Proof. exact tie_get_level. Qed.
+Theorem c15_tie_passes : forall c l always, (c_level c <= 2)%nat ->
+  passes c l always = negb (src_print_filtered always (c_json c) (src_get_level (olevel_text l)) (Z.of_nat (c_level c))).
+Proof. exact tie_passes. Qed.
+Theorem c15_tie_coloured : forall c l s,
+  (c_colors c && negb (String.eqb s "") && (match l with OInfo => false | _ => true end)) = src_print_coloured (c_colors c) s (olevel_text l).
+Proof. exact tie_coloured. Qed.
+Theorem c15_tie_colour_codes : forall l, l <> OInfo -> option_map z_to_string (assoc (olevel_text l) src_outbuf_colors) = Some (colour_code l).
+Proof. exact tie_colour_codes. Qed.
